@@ -293,6 +293,10 @@ fn run_case(rt: &Runtime<roto::NoCtx>, case: &Case, mut drv: Option<&mut Driver>
                                 input.clone(),
                             );
                         }
+                        if !color && st == "typechecker" {
+                            // which kind of type error: the description with every quoted name / type / number blanked
+                            rep.hist("type-error", error_kind(&text));
+                        }
                         if color && idx % 997 == 0 {
                             rep.sample(json!({"input": case.preview(), "stage": st, "report_head": text.lines().next()}));
                         }
@@ -319,6 +323,26 @@ fn run_case(rt: &Runtime<roto::NoCtx>, case: &Case, mut drv: Option<&mut Driver>
 
 thread_local! {
     static LEXED: RefCell<Vec<(String, Vec<(String, usize, usize)>)>> = const { RefCell::new(Vec::new()) };
+}
+
+/// first line of a rendered report without what it quotes: `Error: Type error: the variant `X` does not exist on `T``
+/// → `the variant _ does not exist on _`
+fn error_kind(text: &str) -> String {
+    let line = text.lines().next().unwrap_or("");
+    let line = line.rsplit("Type error: ").next().unwrap_or(line);
+    let mut out = String::new();
+    let mut quoted = false;
+    for c in line.chars() {
+        if c == '`' {
+            if !quoted {
+                out.push('_');
+            }
+            quoted = !quoted;
+        } else if !quoted {
+            out.push(if c.is_ascii_digit() { '#' } else { c });
+        }
+    }
+    out.chars().take(80).collect()
 }
 
 fn short_kind(k: &str) -> char {
@@ -820,6 +844,30 @@ fn main() {
                 boundary.get(i as usize).map(|c| c.to_json()).unwrap_or(Value::Null)
             });
             rep.notes.push(format!("boundary stream: {} class representatives run before the random stream", boundary.len()));
+            // measured, not assumed: every constructor of a type error was reached by the representatives
+            {
+                let reached = rep.histograms.get("type-error").cloned().unwrap_or_default();
+                let mut missing = vec![];
+                for (ctor, kind) in g::typeerrors::ERROR_KINDS {
+                    let n: u64 = reached.iter().filter(|(k, _)| k.starts_with(kind)).map(|(_, n)| *n).sum();
+                    rep.hist("type-error-constructor", format!("{ctor}: {kind}"));
+                    if n == 0 {
+                        missing.push(format!("{ctor} ({kind})"));
+                    }
+                }
+                if !missing.is_empty() {
+                    rep.mismatch(
+                        "the boundary stream no longer reaches every constructor of a type error (src/typechecker/error.rs)",
+                        json!({"key": "type-error-coverage", "missing": missing}),
+                    );
+                }
+                rep.notes.push(format!(
+                    "type errors: {} kinds of report seen in the corpus + boundary stream; all {} (constructor, kind) pairs of the table reached: {}",
+                    reached.len(),
+                    g::typeerrors::ERROR_KINDS.len(),
+                    missing.is_empty()
+                ));
+            }
             let seeds = g::Seeds::load();
             rep.notes.push(format!("seed programs harvested from the repository: {}", seeds.programs.len()));
             let batch = if thorough { 500 } else { 100 };
